@@ -182,7 +182,7 @@ CHECKS = {
                  "written by SQLite. Non-trivial = every mutation that changes the byte and is not excluded (for re-read: the must-reject ones). Distinct by key (page size, offset, value)."),
         "assumptions": ["system libsqlite3 (3.40.1) writes the WAL/UTF-16 files and validates the base images", "schema format 1 files cannot be produced with this SQLite build (legacy_file_format is a no-op); covered header-only"],
         "min_nontrivial": {"quick": 200000, "thorough": 200000},
-        "required_classes": ["must-reject:magic", "must-reject:read-version", "must-reject:reserved-space", "must-reject:text-encoding", "must-reject:schema-format", "must-reject:page-size", "must-accept:change-counter", "must-accept:user-version", "reread:must-reject", "real:wal-open", "real:utf16le", "real:switch-to-wal", "real:switch-to-wal-two-handles"],
+        "required_classes": ["must-reject:magic", "must-reject:read-version", "must-reject:reserved-space", "must-reject:text-encoding", "must-reject:schema-format", "must-reject:page-size", "must-accept:change-counter", "must-accept:user-version", "reread:must-reject", "real:wal-open", "real:utf16le", "real:switch-to-wal", "real:switch-to-wal-two-handles", "real:wal-before-first-table"],
         "timeout": {"quick": 300, "thorough": 1500},
         "jobs": [
             job("enum", "c15", ["TestC15HeaderEnum", "TestC15Mutation"], 1, 1, 4, 8, run="^TestC15HeaderEnum$"),
